@@ -121,6 +121,22 @@ pub fn dispatch(f: &[&str]) -> String {
             let Some(s) = utf8(unhex(f[1])) else { return "invalid-utf8".into() };
             hexlist(&s.split_whitespace().collect::<Vec<_>>())
         }
+        "mv.parse" => {
+            use lettre::message::header::{self, Header};
+            let Some(x) = utf8(unhex(f[1])) else { return "invalid-utf8".into() };
+            match header::MimeVersion::parse(&x) {
+                Ok(v) => { let mut h = header::Headers::new(); h.set(v); format!("some\t{}\t{}\t{}", v.major(), v.minor(), hex(h.get_raw("MIME-Version").unwrap_or("").as_bytes())) }
+                Err(_) => "none".into(),
+            }
+        }
+        "cte.parse" => {
+            use lettre::message::header::{self, Header};
+            let Some(x) = utf8(unhex(f[1])) else { return "invalid-utf8".into() };
+            match header::ContentTransferEncoding::parse(&x) {
+                Ok(v) => { let mut h = header::Headers::new(); h.set(v); format!("some\t{}", hex(h.get_raw("Content-Transfer-Encoding").unwrap_or("").as_bytes())) }
+                Err(_) => "none".into(),
+            }
+        }
         "date.display" => {
             // the Date header value for a second since the epoch; a panic (F37: outside 1970..9999) prints PANIC, the model says panic
             use lettre::message::header::{self, Header};
